@@ -17,12 +17,16 @@
 #include <string>
 #include <vector>
 
+#ifndef VERIF_NO_NAUNET
 #include "naunet.h"
+#endif
 #include "naunet_constants.h"
 #include "naunet_macros.h"
 #include "naunet_ode.h"
 #include "naunet_physics.h"
+#ifndef VERIF_NO_NAUNET
 #include "naunet_renorm.h"
+#endif
 #include "verif_shim.h"
 
 #ifndef NHEATPROCS
@@ -292,7 +296,7 @@ int main() {
 #undef VERIF_IDX
             printf("}\n");
         } else if (cmd == "renorm") {
-#ifdef IDX_ELEM_H
+#if defined(IDX_ELEM_H) && !defined(VERIF_NO_NAUNET)
             int opt; in >> opt;
             std::vector<double> ref; double v;
             while (in >> v) ref.push_back(v);
@@ -325,6 +329,7 @@ int main() {
             int r;
             while (in >> r) verif_shim.reinit_script.push_back(r);
             printf("{\"ev\":\"script\",\"cvode\":%zu,\"reinit\":%zu}\n", verif_shim.cvode_script.size(), verif_shim.reinit_script.size());
+#ifndef VERIF_NO_NAUNET
         } else if (cmd == "solve") {
             double dt; in >> dt;
             double *ab = (double *)malloc(sizeof(double) * NEQUATIONS);
@@ -347,6 +352,7 @@ int main() {
             }
             printf("]}\n");
             free(ab);
+#endif
         } else if (cmd == "quit") {
             break;
         } else {
